@@ -39,6 +39,7 @@ PayloadReason(e, id) ==
        ELSE IF Flatten([j \in 1..Len(dec) |-> dec[j].Payload]) # e.frame THEN "frame_not_reproduced"
        ELSE IF \E j \in 1..Len(dec) : dec[j].PictureID # id \/ ~dec[j].I \/ e.frags[j][2] < 128 THEN "picture_id"
        ELSE IF \E j \in 1..Len(dec) : dec[j].B # (j = 1) \/ dec[j].E # (j = Len(dec)) THEN "begin_end_flags"
+       ELSE IF e.existing THEN ""      \* a show_existing_frame has no frame type and no coded size: only the lossless / id / B-E clauses apply
        ELSE IF ~e.flexible /\ e.key /\ (e.w > 65535 \/ e.h > 65535) THEN ""      \* coded size 65536 does not fit the 16-bit SS fields (stated limit)
        ELSE IF ~ValidVP9Packetization(e.frame, e.flexible, e.key, e.w, e.h, id, dec, e.frags) THEN
               (IF ~e.flexible /\ e.key /\ ~(dec[1].V /\ dec[1].Y /\ Len(dec[1].Width) >= 1 /\ dec[1].Width[1] = e.w /\ dec[1].Height[1] = e.h) THEN "scalability_structure_size"
